@@ -223,7 +223,7 @@ fn run_pair_table(ctx: &mut Ctx) {
     ctx.exhaustive_notes.push("C06: all 4200 arguments of RoundingMode::round_pair (7 modes x 3 signs x 10 x 10 digits x tail flag)".into());
 }
 
-fn gen_target(r: &mut Rng, d: &Dec) -> i64 {
+pub fn gen_target(r: &mut Rng, d: &Dec) -> i64 {
     let nd = ndigits(&d.n) as i64;
     match r.below(6) {
         0 => d.s - nd + r.range(-4, 4),          // around the leading digit
